@@ -10,7 +10,7 @@ demo = demos[0]
 r = subprocess.run(["/verif/tools/seed_confirm.sh", wt, diff, demo, dest, "--"] + ["bash", "-c", cmd], capture_output=True, text=True)
 print(r.stdout[-2500:])
 ok = "CONFIRMED" in r.stdout
-out = f"/verif/seeded/{pid}-m{n}"
+out = f"/verif/seeded/{pid}-m{os.environ.get('SEED_AS', n)}"
 if ok:
     os.makedirs(out, exist_ok=True)
     shutil.copy(diff, f"{out}/patch.diff")
